@@ -11,12 +11,26 @@ import subprocess
 
 import lib
 
-WDIR = os.path.join(lib.VERIF, "engines", "witness")
+SRC_WDIR = os.path.join(lib.VERIF, "engines", "witness")
+# the witness crate path-depends on /repo; when another tree is analysed (self-test on a scratch
+# copy) a copy of the crate with rewritten paths is used instead
+WDIR = SRC_WDIR if lib.REPO == "/repo" else os.path.join(lib.CACHE, "witness-src")
 TARGET = os.path.join(lib.CACHE, "target-witness")
 
 
 def _prepare():
     os.makedirs(lib.CACHE, exist_ok=True)
+    if WDIR != SRC_WDIR:
+        os.makedirs(os.path.join(WDIR, "src"), exist_ok=True)
+        for f in os.listdir(os.path.join(SRC_WDIR, "src")):
+            shutil.copyfile(os.path.join(SRC_WDIR, "src", f), os.path.join(WDIR, "src", f))
+        toml = open(os.path.join(SRC_WDIR, "Cargo.toml")).read().replace('path = "/repo', 'path = "%s' % lib.REPO)
+        with open(os.path.join(WDIR, "Cargo.toml"), "w") as fh:
+            fh.write(toml)
+        for f in ("rust-toolchain.toml", os.path.join(".cargo", "config.toml")):
+            if os.path.exists(os.path.join(SRC_WDIR, f)):
+                os.makedirs(os.path.dirname(os.path.join(WDIR, f)), exist_ok=True)
+                shutil.copyfile(os.path.join(SRC_WDIR, f), os.path.join(WDIR, f))
     src = os.path.join(lib.REPO, "Cargo.lock")
     dst = os.path.join(WDIR, "Cargo.lock")
     stamp = os.path.join(lib.CACHE, "witness-lock.sha")
